@@ -10,7 +10,7 @@ import vlib
 from props import fam_pdb as F
 
 
-MANIFEST = {'technique': 'Coq proof (atom-site flatten/regroup inverse by induction) + differential check of row order + mmCIF/PDB round-trip oracles on gemmi', 'text': 'Theorem C07_regroup_flatten: for every structure satisfying the stated well-formedness (distinct model numbers, adjacent chains differ, residue ids pairwise non-matching within a chain) reading the _atom_site rows written for it regroups to the same models/chains/residues/atoms; the precondition is shown necessary by a refuting witness (equal non-adjacent ids merge). Oracles on gemmi: structure -> mmCIF -> structure -> mmCIF byte-identical + structure equality x 17 output-group switches (names needing every quote style, multi-character chains, long residue names, negative/large numbers, several models); PDB route vs mmCIF route give the same structure. PARTIAL: entities, assemblies, connections, secondary structure, sequences, 9-digit number formatting and the PDB/mmCIF agreement are decided by the oracles only.', 'note': 'Trusted: Coq kernel; extraction; harness. No axioms. CIF quoting is property C01.'}
+MANIFEST = {'technique': 'Coq proof (atom-site flatten/regroup inverse by induction) + differential check of row order + mmCIF/PDB round-trip oracles on gemmi', 'text': 'The PDB-vs-mmCIF oracle also writes both files from the ORIGINAL structure and compares the connections, so that a defect of one writer cannot hide by feeding the other route. Theorem C07_regroup_flatten: for every structure satisfying the stated well-formedness (distinct model numbers, adjacent chains differ, residue ids pairwise non-matching within a chain) reading the _atom_site rows written for it regroups to the same models/chains/residues/atoms; the precondition is shown necessary by a refuting witness (equal non-adjacent ids merge). Oracles on gemmi: structure -> mmCIF -> structure -> mmCIF byte-identical + structure equality x 17 output-group switches (names needing every quote style, multi-character chains, long residue names, negative/large numbers, several models); PDB route vs mmCIF route give the same structure. PARTIAL: entities, assemblies, connections, secondary structure, sequences, 9-digit number formatting and the PDB/mmCIF agreement are decided by the oracles only.', 'note': 'Trusted: Coq kernel; extraction; harness. No axioms. CIF quoting is property C01.'}
 
 def gen_lines(rng, quick):
     lines = []
